@@ -11,7 +11,7 @@ def wmAdd (k txt : Snap) (l : List (Snap × Snap)) : List (Snap × Snap) :=
 
 -- registration in listener (exit) order: children first
 mutual
-  def regE (ft : UInt64 → String) (w : WM) : Expr → WM
+  def regE (ft : LitText) (w : WM) : Expr → WM
     | .bin op l r =>
       let w := regE ft w l
       let w := regE ft w r
@@ -22,7 +22,7 @@ mutual
     | .atom a =>
       let w := regA ft w a
       { w with exprs := wmAdd (snapE (.atom a)) (textE ft (.atom a)) w.exprs }
-  def regA (ft : UInt64 → String) (w : WM) : Atom → WM
+  def regA (ft : LitText) (w : WM) : Atom → WM
     | .const k => { w with atoms := wmAdd (snapA (.const k)) (textA ft (.const k)) w.atoms }
     | .var v =>
       let w := regV ft w v
@@ -44,7 +44,7 @@ mutual
     | .neg a =>
       let w := regA ft w a
       { w with atoms := wmAdd (snapA (.neg a)) (textA ft (.neg a)) w.atoms }
-  def regV (ft : UInt64 → String) (w : WM) : Var → WM
+  def regV (ft : LitText) (w : WM) : Var → WM
     | .root n => { w with vars := wmAdd (snapV (.root n)) (textV ft (.root n)) w.vars }
     | .field v n =>
       let w := regV ft w v
@@ -53,16 +53,16 @@ mutual
       let w := regV ft w v
       let w := regE ft w e
       { w with vars := wmAdd (snapV (.index v e)) (textV ft (.index v e)) w.vars }
-  def regArgs (ft : UInt64 → String) (w : WM) : Args → WM
+  def regArgs (ft : LitText) (w : WM) : Args → WM
     | .nil => w
     | .cons e rest => regArgs ft (regE ft w e) rest
 end
 
-def regAction (ft : UInt64 → String) (w : WM) : Action → WM
+def regAction (ft : LitText) (w : WM) : Action → WM
   | .assign _ v e => regE ft (regV ft w v) e
   | .stmt a => regA ft w a
 
-def regRule (ft : UInt64 → String) (w : WM) (r : Rule) : WM :=
+def regRule (ft : LitText) (w : WM) (r : Rule) : WM :=
   r.acts.foldl (regAction ft) (regE ft w r.cond)
 
 structure KB where
@@ -89,7 +89,7 @@ def KB.addRules (kb : KB) (rules : List Rule) : KB × Nat :=
   grl.foldl step2 (kb, e1)
 
 /-- BuildRuleFromResource on a text that parses to `rules` -/
-def KB.build (ft : UInt64 → String) (kb : KB) (rules : List Rule) : KB × Nat :=
+def KB.build (ft : LitText) (kb : KB) (rules : List Rule) : KB × Nat :=
   let wm := rules.foldl (regRule ft) kb.wm
   let (kb', errs) := ({ kb with wm := wm }).addRules rules
   ({ kb' with wm := kb'.wm.indexVariables }, errs)
@@ -113,7 +113,7 @@ def KB.removeLib (kb : KB) (uuid : String) (name : String) : KB :=
 
 /-- all working-memory keys reachable from the rule entries (what `Clone` puts on the clone table) -/
 def reachableWM (entries : List RuleEntry) : WM :=
-  entries.foldl (fun w e => regRule (fun _ => "") w e.rule) {}
+  entries.foldl (fun w e => regRule (fun _ => none) w e.rule) {}
 
 def keysSubset (a b : List (Snap × Snap)) : Bool := a.all (fun (k, _) => (snapGet k b).isSome)
 
